@@ -145,6 +145,13 @@ pub fn l2l4_frames() -> Vec<PFrame> {
         v.push(pf(&format!("ns-{}", mn), eth(&crate::driver::MAC_SRV, &mac, ET_IP6, &nd_ns(&cli6(), &srv6(), &srv6(), &slla(&mac), 0))));
         v.push(pf(&format!("ns-{}-slla-other", mn), eth(&crate::driver::MAC_SRV, &mac, ET_IP6, &nd_ns(&cli6(), &srv6(), &srv6(), &slla(&other), 0))));
     }
+    // replies beyond 1500 bytes (another code path for lengths / fragmentation fields) and an echo
+    // whose reply is exactly as long as a SYN-ACK
+    for v6 in [false, true] {
+        let big: Vec<u8> = (0..1480usize).map(|k| k as u8).collect();
+        v.push(pf(&format!("echo-1480-{}", v6), flow(v6, 40000, 80).icmp_echo(3, 4, &big)));
+        v.push(pf(&format!("echo-12-{}", v6), flow(v6, 40000, 80).icmp_echo(3, 4, &big[..12])));
+    }
     // one source endpoint, several destinations
     for (dn, d4, d6) in [("dstA", srv4(), srv6()), ("dstB", srv4b(), srv6b())] {
         for v6 in [false, true] {
